@@ -419,7 +419,12 @@ mod header_serde {
     where
         S: Serializer,
     {
-        serializer.collect_map(headers.iter().map(|(name, values)| {
+        // The headers live in a randomly seeded hash map: write them ordered by name, so that
+        // the same response is always the same sequence of bytes.
+        let mut entries: Vec<_> = headers.iter().collect();
+        entries.sort_by(|(a, _), (b, _)| a.as_str().cmp(b.as_str()));
+
+        serializer.collect_map(entries.into_iter().map(|(name, values)| {
             (
                 name.as_str(),
                 values.iter().map(|v| v.as_str()).collect::<Vec<_>>(),
@@ -464,6 +469,19 @@ mod tests {
         let reversed: Vec<_> = names.iter().rev().copied().collect();
 
         assert_eq!(build(&names), build(&reversed));
+    }
+
+    #[test]
+    fn headers_are_serialized_in_name_order() {
+        let mut response = ResponseBuilder::ok().body("body").build();
+        for name in ["d", "b", "h", "a", "g", "c", "f", "e"] {
+            response.append_header(name, "1");
+        }
+
+        let json = serde_json::to_string(&response).unwrap();
+
+        let expected = r#""headers":{"a":["1"],"b":["1"],"c":["1"],"d":["1"],"e":["1"],"f":["1"],"g":["1"],"h":["1"]}"#;
+        assert!(json.contains(expected), "{json}");
     }
 
     #[test]
